@@ -342,7 +342,8 @@ pub struct Options {
 /// Runs one check; returns the process exit code.
 pub fn run_check(check: &dyn Check, opt: &Options) -> i32 {
     let t0 = Instant::now();
-    let total = opt.runs_override.unwrap_or_else(|| check.runs(opt.tier));
+    let scale: f64 = std::env::var("VERIF_SCALE").ok().and_then(|s| s.parse().ok()).unwrap_or(1.0);
+    let total = opt.runs_override.unwrap_or_else(|| ((check.runs(opt.tier) as f64) * scale).max(1.0) as u64);
     let cap = check.wall_cap(opt.tier);
     let known = load_known(&opt.root);
     let next = AtomicU64::new(0);
